@@ -102,6 +102,8 @@ type FuncContract struct {
 }
 
 type SpecFun struct {
+	Abstract bool // like opaque, but the defining axiom is only available under `uses def:<name>` and in native-theory lemma proofs
+	Native string // SMT body used when the native string theory is on (parameters a_<name>)
 	Opaque bool
 	Name   string
 	Params []Param
@@ -126,6 +128,8 @@ type Lemma struct {
 	Ensures  []Clause
 	Triggers []Clause
 	Where    string
+	Theory   string // "strings": proved with the native SMT string theory
+	Auto     bool   // assumed wherever its symbols occur (like an axiom), not only under `uses`
 }
 
 type PropertyMap struct {
@@ -432,7 +436,7 @@ func parseExpr(src string) (e Expr, err error) {
 var itemKw = map[string]bool{"func": true, "extern": true, "spec": true, "axiom": true, "lemma": true,
 	"property": true, "opaque": true, "ghost": true, "theory": true, "import": true}
 var clauseKw = map[string]bool{"requires": true, "ensures": true, "modifies": true, "loop": true, "call": true,
-	"nopanic": true, "trusted": true, "pure": true, "cut": true, "induction": true, "fresh": true, "trigger": true, "uses": true}
+	"nopanic": true, "trusted": true, "pure": true, "cut": true, "induction": true, "fresh": true, "trigger": true, "uses": true, "auto": true}
 
 type rawLine struct {
 	kw    string
@@ -536,11 +540,15 @@ func parseSpecFile(path string) (*SpecFile, error) {
 	var curLemma *Lemma
 	var curAxiom *Axiom
 	for _, l := range lines {
-		if itemKw[l.kw] {
+		if itemKw[l.kw] && !(l.kw == "theory" && curLemma != nil) {
 			cur, curLemma, curAxiom = nil, nil, nil
 		}
 		switch l.kw {
 		case "theory":
+			if curLemma != nil {
+				curLemma.Theory = l.text
+				continue
+			}
 			sf.Theory = l.text
 		case "import":
 			parts := strings.Fields(l.text)
@@ -574,10 +582,19 @@ func parseSpecFile(path string) (*SpecFile, error) {
 			}
 			sf.Funcs = append(sf.Funcs, cur)
 		case "spec":
-			opaque := false
+			opaque, abstract := false, false
 			if strings.HasPrefix(l.text, "opaque ") {
 				opaque = true
 				l.text = strings.TrimSpace(l.text[7:])
+			}
+			if strings.HasPrefix(l.text, "abstract ") {
+				opaque, abstract = true, true
+				l.text = strings.TrimSpace(l.text[9:])
+			}
+			native := ""
+			if i := strings.Index(l.text, " native "); i >= 0 {
+				native = strings.TrimSpace(l.text[i+8:])
+				l.text = strings.TrimSpace(l.text[:i])
 			}
 			m := specHeadRe.FindStringSubmatch(l.text)
 			if m == nil {
@@ -587,7 +604,7 @@ func parseSpecFile(path string) (*SpecFile, error) {
 			if err != nil {
 				return nil, fmt.Errorf("%s: %v", l.where, err)
 			}
-			s := &SpecFun{Name: m[1], Params: ps, Ret: strings.TrimSpace(m[3]), Where: l.where, Src: l.text, Opaque: opaque}
+			s := &SpecFun{Name: m[1], Params: ps, Ret: strings.TrimSpace(m[3]), Where: l.where, Src: l.text, Opaque: opaque, Native: native, Abstract: abstract}
 			if m[5] != "" {
 				if s.Body, err = parseExpr(m[5]); err != nil {
 					return nil, fmt.Errorf("%s: %v", l.where, err)
@@ -759,6 +776,11 @@ func parseSpecFile(path string) (*SpecFile, error) {
 					cur.Uses = append(cur.Uses, n)
 				}
 			}
+		case "auto":
+			if curLemma == nil {
+				return nil, fmt.Errorf("%s: auto outside lemma", l.where)
+			}
+			curLemma.Auto = true
 		case "nopanic":
 			cur.NoPanic = true
 		case "trusted":
